@@ -19,29 +19,32 @@ import (
 )
 
 var (
-	prop     = flag.String("prop", "", "property id")
-	tier     = flag.String("tier", "quick", "quick | thorough")
-	seed     = flag.Uint64("seed", 1, "VERIF_SEED")
-	workers  = flag.Int("workers", 16, "worker processes")
-	budget   = flag.Duration("budget", 30*time.Second, "wall-clock budget of the exploration")
-	worker   = flag.Int("worker", -1, "(internal) worker index")
-	outDir   = flag.String("workdir", "", "(internal) worker output directory")
-	evidence = flag.String("evidence", "", "evidence file to write")
-	replays  = flag.String("replays", "/verif/replays", "directory for replay files")
-	known    = flag.String("known", "/verif/KNOWN_FINDINGS.txt", "known findings file")
-	replay   = flag.String("replay", "", "replay file to execute")
-	one      = flag.Uint64("one", 0, "debug: execute the single run with this run seed and print its trace")
-	dumpLog  = flag.Bool("log", false, "debug: print the event log of -one / -replay")
-	maxRuns  = flag.Int("runs", 0, "stop after this many runs per worker (0 = budget only)")
-	sites    = flag.String("sites", "", "site table written by the rewriter (coverage only)")
-	witness  = flag.String("witness", "", "search a witness replay for this known-finding trigger and write it to -evidence")
-	detN     = flag.Int("det", 0, "determinism self-test: print seed and log hash of this many runs")
+	prop         = flag.String("prop", "", "property id")
+	tier         = flag.String("tier", "quick", "quick | thorough")
+	seed         = flag.Uint64("seed", 1, "VERIF_SEED")
+	workers      = flag.Int("workers", 16, "worker processes")
+	budget       = flag.Duration("budget", 30*time.Second, "wall-clock budget of the exploration")
+	worker       = flag.Int("worker", -1, "(internal) worker index")
+	outDir       = flag.String("workdir", "", "(internal) worker output directory")
+	evidence     = flag.String("evidence", "", "evidence file to write")
+	replays      = flag.String("replays", "/verif/replays", "directory for replay files")
+	known        = flag.String("known", "/verif/KNOWN_FINDINGS.txt", "known findings file")
+	replay       = flag.String("replay", "", "replay file to execute")
+	one          = flag.Uint64("one", 0, "debug: execute the single run with this run seed and print its trace")
+	dumpLog      = flag.Bool("log", false, "debug: print the event log of -one / -replay")
+	maxRuns      = flag.Int("runs", 0, "stop after this many runs per worker (0 = budget only)")
+	sites        = flag.String("sites", "", "site table written by the rewriter (coverage only)")
+	execPlanFile = flag.String("exec-plan", "", "(internal) execute the plan of this replay file, print its event-log hash and failed rules")
+	witness      = flag.String("witness", "", "search a witness replay for this known-finding trigger and write it to -evidence")
+	detN         = flag.Int("det", 0, "determinism self-test: print seed and log hash of this many runs")
 )
 
 func main() {
 	flag.Parse()
 	sim.Tier = *tier
 	switch {
+	case *execPlanFile != "":
+		os.Exit(doExecPlan())
 	case *replay != "":
 		os.Exit(doReplay())
 	case *one != 0:
@@ -269,29 +272,31 @@ type violation struct {
 }
 
 type summary struct {
-	Worker       int               `json:"worker"`
-	Runs         int               `json:"runs"`
-	Steps        int               `json:"steps"`
-	ObsCalls     int               `json:"obs_calls"`
-	Nontrivial   int               `json:"nontrivial"`
-	FaultFree    int               `json:"fault_free_runs"`
-	Other        map[string]int    `json:"ended_by_other_property"`
-	Quiet        map[string]int    `json:"ended_quiet"`
-	Probes       map[string]int    `json:"probes"`
-	Faults       map[string]int    `json:"faults"`
-	PokeStats    map[string]int    `json:"poke_locations"`
-	States       int               `json:"states"`
-	Violations   []violation       `json:"violations"`
-	Samples      []json.RawMessage `json:"samples"`
-	WallS        float64           `json:"wall_s"`
-	MinimiseRun  int               `json:"minimise_runs"`
-	MapCalls     uint64            `json:"map_calls"`
-	MapPermuted  uint64            `json:"map_permuted"`
-	Uncontrolled uint64            `json:"uncontrolled_map_sites"`
-	KnownMet     int               `json:"violations_met"`
-	OtherSeeds   []string          `json:"ended_by_other_samples"`
-	Recheck      int               `json:"determinism_rechecks"`
-	RecheckBad   int               `json:"determinism_mismatches"`
+	Worker        int               `json:"worker"`
+	Runs          int               `json:"runs"`
+	Steps         int               `json:"steps"`
+	ObsCalls      int               `json:"obs_calls"`
+	Nontrivial    int               `json:"nontrivial"`
+	FaultFree     int               `json:"fault_free_runs"`
+	Other         map[string]int    `json:"ended_by_other_property"`
+	Quiet         map[string]int    `json:"ended_quiet"`
+	Probes        map[string]int    `json:"probes"`
+	Faults        map[string]int    `json:"faults"`
+	PokeStats     map[string]int    `json:"poke_locations"`
+	States        int               `json:"states"`
+	Violations    []violation       `json:"violations"`
+	Samples       []json.RawMessage `json:"samples"`
+	WallS         float64           `json:"wall_s"`
+	MinimiseRun   int               `json:"minimise_runs"`
+	MapCalls      uint64            `json:"map_calls"`
+	MapPermuted   uint64            `json:"map_permuted"`
+	Uncontrolled  uint64            `json:"uncontrolled_map_sites"`
+	KnownMet      int               `json:"violations_met"`
+	OtherSeeds    []string          `json:"ended_by_other_samples"`
+	Recheck       int               `json:"determinism_rechecks"`
+	RecheckBad    int               `json:"determinism_mismatches"`
+	CrossRunState int               `json:"runs_affected_by_library_state_kept_across_runs"`
+	Unreproduced  int               `json:"violations_not_reproduced_in_a_fresh_process"`
 }
 
 func doWorker() int {
@@ -356,7 +361,17 @@ func doWorker() int {
 			s.Recheck++
 			r2, _, _ := execPlan(plan)
 			if r2.LogHash != res.LogHash {
-				s.RecheckBad++
+				// different in this process: state the library keeps across runs
+				// (a process-wide cache changes how many statements a call executes,
+				// hence where the scheduler pre-empts), or a harness bug? Two fresh
+				// processes decide.
+				h1, _, e1 := freshExec(plan)
+				h2, _, e2 := freshExec(plan)
+				if e1 != nil || e2 != nil || h1 != h2 {
+					s.RecheckBad++
+				} else {
+					s.CrossRunState++
+				}
 			}
 		}
 		if len(res.Fails) > 0 {
@@ -369,6 +384,18 @@ func doWorker() int {
 			if len(mres.Fails) == 0 {
 				mres, minp = res, plan
 				_, mtrace, _ = execPlan(plan)
+			}
+			// every violation is confirmed in a fresh process before it is reported
+			// (what a later `check replay` will see); if the minimised plan does not
+			// fail there, the original one is tried; if neither does, nothing is reported
+			if _, rules, err := freshExec(minp); err != nil || !hasRule(rules, rule) {
+				if _, rules0, err0 := freshExec(plan); err0 == nil && hasRule(rules0, rule) {
+					minp, mres = plan, res
+					_, mtrace, _ = execPlan(plan)
+				} else {
+					s.Unreproduced++
+					continue
+				}
 			}
 			kn := kf.classify(minp, mres)
 			unknown, sameKnown := 0, 0
@@ -402,6 +429,52 @@ func doWorker() int {
 	writeHashes(filepath.Join(*outDir, fmt.Sprintf("w%d.plans", *worker)), planHashes)
 	writeHashes(filepath.Join(*outDir, fmt.Sprintf("w%d.states", *worker)), stateHashes)
 	return 0
+}
+
+// freshExec executes a plan in a fresh process (no state left in the library's
+// package-level variables by earlier runs of this worker) and returns its
+// event-log hash and the rules that failed.
+func freshExec(p *sim.Plan) (hash string, rules []string, err error) {
+	f, err := os.CreateTemp("", "plan-*.json")
+	if err != nil {
+		return "", nil, err
+	}
+	defer os.Remove(f.Name())
+	b, _ := json.Marshal(&sim.Replay{Plan: *p})
+	_, _ = f.Write(b)
+	_ = f.Close()
+	self, _ := os.Executable()
+	out, err := exec.Command(self, "-exec-plan", f.Name(), "-known", *known, "-sites", *sites, "-tier", *tier).Output()
+	if err != nil {
+		return "", nil, err
+	}
+	fields := strings.Fields(strings.TrimSpace(string(out)))
+	if len(fields) == 0 {
+		return "", nil, fmt.Errorf("no output")
+	}
+	return fields[0], fields[1:], nil
+}
+
+func doExecPlan() int {
+	rp, err := sim.ReadReplay(*execPlanFile)
+	if err != nil {
+		return fatal("%v", err)
+	}
+	*prop = rp.Property
+	profile()
+	loadKnown(*known, *prop)
+	res, _, _ := execPlan(&rp.Plan)
+	fmt.Println(res.LogHash, strings.Join(sim.FailRules(res), " "))
+	return 0
+}
+
+func hasRule(rules []string, rule string) bool {
+	for _, r := range rules {
+		if r == rule {
+			return true
+		}
+	}
+	return false
 }
 
 func countTasks(p *sim.Plan) int {
@@ -532,6 +605,8 @@ func doLeader() int {
 		total.Uncontrolled += s.Uncontrolled
 		total.Recheck += s.Recheck
 		total.RecheckBad += s.RecheckBad
+		total.CrossRunState += s.CrossRunState
+		total.Unreproduced += s.Unreproduced
 		for k, v := range s.Other {
 			total.Other[k] += v
 		}
@@ -640,10 +715,12 @@ func writeEvidence(path string, t *summary, nPlans, nStates int, wall float64, v
 		"map_range_calls_permuted":   t.MapPermuted,
 		"uncontrolled_map_sites":     t.Uncontrolled,
 		"determinism_rechecks":       t.Recheck,
-		"minimiser_runs":             t.MinimiseRun,
-		"real_components":            []string{"aws-v1/client", "aws-v2/client", "core", "interpreter", "interpreter/language", "types", "AWS SDK request types and validators"},
-		"simulated_components":       []string{"map iteration order (simrt.MapKeys)", "mutex ownership (simrt.Lock/Unlock)", "interleaving of callers at call granularity (engine actors)", "caller memory reuse (pokes)"},
-		"fault_kinds_absent":         []string{"network", "disk", "clock", "allocation failure (the library has none of these)"},
+		"runs_affected_by_library_state_kept_across_runs": t.CrossRunState,
+		"violations_not_reproduced_in_a_fresh_process":    t.Unreproduced,
+		"minimiser_runs":       t.MinimiseRun,
+		"real_components":      []string{"aws-v1/client", "aws-v2/client", "core", "interpreter", "interpreter/language", "types", "AWS SDK request types and validators"},
+		"simulated_components": []string{"map iteration order (simrt.MapKeys)", "mutex ownership (simrt.Lock/Unlock)", "interleaving of callers at call granularity (engine actors)", "caller memory reuse (pokes)"},
+		"fault_kinds_absent":   []string{"network", "disk", "clock", "allocation failure (the library has none of these)"},
 	}
 	var kn []string
 	for _, v := range t.Violations {
